@@ -385,7 +385,7 @@ def run(ctx, res, cases=None):
     rng = pv.Rng(ctx.seed)
     corpus = load_corpus()
     if cases is None:
-        n = 36 if ctx.quick else 420
+        n = 28 if ctx.quick else 160
         cases = [writer_only(c) for _, c in corpus] + [gen_case(rng.fork(k), ctx.quick) for k in range(n)]
         ncorpus = len(corpus)
     else:
@@ -404,6 +404,11 @@ def run(ctx, res, cases=None):
                 stats[k] = stats.get(k, 0) + v
             if rc != 0:
                 res.violations.append({'key': 'harness-exit-%d' % rc, 'what': 'harness exited with %d in batch %d: %s' % (rc, i, err[-500:]), 'case': batches[i][0][:50]})
+    # a crash of the real code ends the harness process: cases behind it in the batch are rerun alone
+    redo = [k for k, r in enumerate(results) if r.get('missing')][:12]
+    for k in redo:
+        rs, st, err, rc = run_batch(exe, ctx.path('redo'), [results[k]['ops']], ctx.driver_ok, timeout=300)
+        results[k] = rs[0]
     hist = {}
     nev = 0
     multi = {'multi_buffer_event_chains': 0, 'multi_buffer_dictionaries': 0, 'multi_buffer_thread_chains': 0, 'multi_process_cases': 0, 'rejected_calls': 0,
@@ -449,7 +454,7 @@ def run(ctx, res, cases=None):
                 multi['multi_buffer_thread_chains'] += 1
         multi['multi_process_cases'] += 1 if len(procs) > 1 else 0
         multi['rejected_calls'] += sum(1 for o, i in r['lines'] if i == 'rejected')
-        multi['files_rejected_by_reader'] += sum(1 for o, i in r['lines'] if o == 'read' for e in i.split()[1][5:].split(',') if e != '0')
+        multi['files_rejected_by_reader'] += sum(1 for o, i in r['lines'] if o == 'read' and ' errs=' in i for e in i.split()[1][5:].split(',') if e != '0')
         if nev_case > 0 and any(o.startswith('revents') and i not in ('rejected',) and 'n=0 ' not in i for o, i in r['lines']):
             res.nontrivial(' ; '.join(ops)[:100000])
         if len(res.violations) + len(res.disagreements) >= 4:
